@@ -28,7 +28,7 @@ Calls(s) ==
   \cup {[op |-> "cancel", id |-> i] : i \in Ids}
   \cup {[op |-> "amend", id |-> i, q |-> q] : i \in Ids, q \in AmendQs}
 
-NoFlags == [sameOrder |-> TRUE, noStale |-> TRUE]
+NoFlags == [good |-> TRUE, sameOrder |-> TRUE, noStale |-> TRUE]
 Init == sh1 = EmptyShared /\ sh2 = EmptyShared /\ mode = "build" /\ flags = NoFlags /\ verdict = {} /\ n = 0
 
 Build == /\ mode = "build" /\ n < BuildLen
